@@ -522,8 +522,20 @@ def run_check(prop, tier, seed, replay=None):
     # independent re-check of the compiled development (thorough tier of the designated property only)
     coqchk_note = None
     if ok and tier == "thorough" and prop == "C14" and not replay:
-        mods = " ".join("Verif.Props." + f[:-2] for f in sorted(os.listdir(os.path.join(COQ, "Props"))) if f.endswith(".vo"))
-        rc, out = sh("timeout 3000 coqchk -silent -o -Q . Verif %s" % mods, cwd=COQ, timeout=3100)
+        # bring every Props object up to date with the regenerated Gen files first: objects left behind by a run of another
+        # property against another tree (or before a source change) are inconsistent with their dependencies and coqchk
+        # then dies with a fatal type error - an alarm that has nothing to do with the axioms.  A Props module that does not
+        # build NOW is an obligation of its own property's check, not of this re-check: it is left out (and counted).
+        with Lock(True):
+            props_all = sorted(f[:-2] for f in os.listdir(os.path.join(COQ, "Props")) if f.endswith(".v"))
+            rc_m, out_m = sh("timeout 2700 make -k -j%d %s" % (NCPU, " ".join("Props/%s.vo" % x for x in props_all)), cwd=COQ, timeout=2800)
+            log.append("== make -k of every Props module before coqchk rc=%d\n%s" % (rc_m, out_m[-1500:]))
+            fresh = [x for x in props_all if sh("make -q Props/%s.vo" % x, cwd=COQ, timeout=120)[0] == 0]
+        mods = " ".join("Verif.Props." + x for x in fresh)
+        with Lock(False):
+            rc, out = sh("timeout 3000 coqchk -silent -o -Q . Verif %s" % mods, cwd=COQ, timeout=3100)
+        if len(fresh) != len(props_all):
+            log.append("coqchk: left out (do not build on this tree): %s" % sorted(set(props_all) - set(fresh)))
         log.append("== coqchk rc=%d\n%s" % (rc, out[-3000:]))
         m = re.search(r"\* Axioms:(.*?)\n\s*\n\* ", out, re.S)
         ax = m.group(1).strip() if m else "?"
